@@ -68,7 +68,121 @@ def _old_strategy(tier):
     })
 
 
+def extra_cases(tier, seed, shard, nshards):
+    n, secs = (1, 4) if tier == "quick" else (6, 15)
+    for i in range(n):
+        if i % nshards == shard:
+            yield {"engine": "R", "threads": [2, 4, 1][i % 3], "keepalive": [2, 1, 2][i % 3], "clients": 32 if tier == "quick" else 64,
+                   "seconds": secs, "rseed": seed * 101 + i}
+
+
+def run_real(case):
+    """real gthread worker under a swarm of real clients with mixed behaviour; at quiescence the worker's socket fds are back
+    to the baseline, the worker is the same process and still serves (bytecode-level races are only sampled here)"""
+    import os
+    import random
+    import threading
+    import time
+    from vlib import renv
+    srv = renv.Server(kind="gthread", workers=1, bind="tcp", graceful=2, timeout=30, threads=case["threads"], keepalive=case["keepalive"])
+    vio = []
+    try:
+        if not srv.wait_ready():
+            return Outcome([], False, ["engine:R", "inconclusive:not-ready"])
+        time.sleep(case["keepalive"] + 1.5)
+        wpid = srv.workers()[0]
+
+        def nsock():
+            n = 0
+            for fd in os.listdir("/proc/%d/fd" % wpid):
+                try:
+                    if os.readlink("/proc/%d/fd/%s" % (wpid, fd)).startswith("socket:"):
+                        n += 1
+                except OSError:
+                    pass
+            return n
+        base = nsock()
+        stop = [False]
+        stats = {"ok": 0, "bad": 0, "conns": 0}
+        lock = threading.Lock()
+
+        def client(i):
+            rng = random.Random(case["rseed"] * 1000 + i)
+            while not stop[0]:
+                mode = rng.choice(["ka", "ka", "close", "idle", "partial", "slow"])
+                try:
+                    c = srv.connect(5)
+                except OSError:
+                    with lock:
+                        stats["bad"] += 1
+                    time.sleep(0.05)
+                    continue
+                with lock:
+                    stats["conns"] += 1
+                try:
+                    if mode == "idle":
+                        time.sleep(rng.choice([0.0, 0.2, 1.0]))
+                    elif mode == "partial":
+                        c.sendall(b"GET /pid HTTP/1.1\r\nHo")
+                        time.sleep(rng.choice([0.0, 0.3]))
+                    else:
+                        for k in range(rng.randint(1, 4) if mode == "ka" else 1):
+                            path = "/slow/0.05" if mode == "slow" else "/pid"
+                            c.sendall(("GET %s HTTP/1.1\r\nHost: x\r\n%s\r\n" % (path, "Connection: close\r\n" if mode == "close" else "")).encode())
+                            buf = b""
+                            c.settimeout(6)
+                            while True:
+                                r = ref_parse(buf)
+                                if r is not None and r.ok and r.complete:
+                                    break
+                                d = c.recv(65536)
+                                if not d:
+                                    break
+                                buf += d
+                            r = ref_parse(buf)
+                            with lock:
+                                stats["ok" if (r is not None and r.ok and r.complete and r.status == 200) else "bad"] += 1
+                            if mode == "ka":
+                                time.sleep(rng.choice([0.0, 0.1, 0.6]))
+                except OSError:
+                    pass
+                finally:
+                    try:
+                        c.close()
+                    except OSError:
+                        pass
+
+        def ref_parse(buf):
+            from vlib import ref_response
+            return ref_response.parse_response(buf, 0, "GET") if buf else None
+
+        ths = [threading.Thread(target=client, args=(i,), daemon=True) for i in range(case["clients"])]
+        for t in ths:
+            t.start()
+        time.sleep(case["seconds"])
+        stop[0] = True
+        for t in ths:
+            t.join(10)
+        time.sleep(case["keepalive"] + 2.0)
+        after = nsock() if renv.alive(wpid) else -1
+        if srv.workers() != [wpid]:
+            vio.append(Violation("worker-lives", "C13/real:worker-replaced-under-load", observed={"before": wpid, "after": srv.workers(),
+                                                                                                 "log_tail": srv.logtext()[-1200:]}, expected="same worker"))
+        elif after != base:
+            vio.append(Violation("returns-to-zero", "C13/real:socket-fds-%s-baseline-after-clients-left" % ("above" if after > base else "below"),
+                                 observed={"baseline": base, "after": after, "stats": stats}, expected=base))
+        r, data, err = srv.request("/pid", timeout=5)
+        if r is None or not (r.ok and r.status == 200):
+            vio.append(Violation("keeps-serving", "C13/real:not-serving-after-load", observed={"error": err}, expected="200"))
+        return Outcome(vio, stats["conns"] > 50, ["engine:R", "threads:%d" % case["threads"]], key="R|%d" % case["rseed"],
+                       sample={"case": case, "stats": stats, "baseline_fds": base, "after_fds": after}, counts={"real-connections": stats["conns"]})
+    finally:
+        srv.cleanup()
+
+
 def run_case(case):
+    if case.get("engine") == "R":
+        return run_real(case)
     events = [list(e) for e in case["events"]]
     if case.get("stop_at") is not None and case["stop_at"] < len(events):
         events.insert(case["stop_at"], ["stop"])
